@@ -249,6 +249,12 @@ Definition ark_ops : list entry :=
     ("el.enc", ("E", un compress_ark)); ("el.enc.from_elem", ("E", un compress_ark)); ("el.enc.from_ref", ("E", un compress_ark));
     ("el.enc.arr_from", ("E", un compress_ark)); ("el.ser", ("E", un compress_ark));
     ("af.ser", ("A", unA (fun a => compress_ark (oa a))));
+    (* the uncompressed / unvalidated serialisation modes are NOT implemented by the crate: serialisation ignores the mode (always the
+       canonical 32 bytes), the size query and every deserialisation in those modes stop with unimplemented!() and hand out nothing *)
+    ("el.ser_uncompressed", ("E", un compress_ark)); ("af.ser_uncompressed", ("A", unA (fun a => compress_ark (oa a))));
+    ("el.serialized_size_uncompressed", ("E", un (fun _ => panic))); ("af.serialized_size_uncompressed", ("A", unA (fun _ => panic)));
+    ("el.deser_uncompressed", ("L", unL (fun _ => panic))); ("af.deser_uncompressed", ("L", unL (fun _ => panic)));
+    ("el.deser_unchecked", ("L", unL (fun _ => panic))); ("af.deser_unchecked", ("L", unL (fun _ => panic)));
     ("el.dec", ("L", unL (fun b => out_dec (decompress32_ark b)))); ("el.dec.decompress", ("L", unL (fun b => out_dec (decompress32_ark b))));
     ("el.dec.tf_enc", ("L", unL (fun b => out_dec (decompress32_ark b)))); ("el.dec.tf_encref", ("L", unL (fun b => out_dec (decompress32_ark b))));
     ("el.dec.tf_arr", ("L", unL (fun b => out_dec (decompress32_ark b))));
